@@ -147,6 +147,9 @@ NOISE_PATTERNS = [[], [], [], ["notif"], ["other-id"], ["same-id-request"], ["ot
 TIMEOUTS = [2.0, 2.0, 0.3, None, 2.0, 0.75, 2.0, 5.0]     # None = the function's default (60 s)
 
 
+PRIORS = ["2025-06-18", "2025-03-26", "2024-11-05", "draft-0", "2026-01-01"]
+
+
 def gen_cases(ctx):
     full = ctx.thorough or ctx.escalated
     cfgs = configs()
@@ -171,6 +174,12 @@ def gen_cases(ctx):
                 continue                  # padded answers: a fifth of the configurations each (all of them in thorough)
             add(ans, False)
             add(ans, True)
+            if ((ci + ai) % 3 == 0 or full) and sup is not None and ans["value"] in sup:
+                # (for answers the client ACCEPTS: a refused handshake leaves the client as it was)
+                # the SAME tracked client has been through a handshake before (a reconnect; a renegotiation): the mode it
+                # ends in belongs to the version settled on NOW, whatever the earlier one was
+                add(ans, True)
+                cases[-1]["prior_version"] = PRIORS[(ci + ai) % len(PRIORS)]
         for j, ans in enumerate(ma):
             add(ans, (ci + j) % 2 == 0)
             if full:
